@@ -237,6 +237,28 @@ RESOURCE_INPUTS = [
 ]
 
 
+# style elements that reference several styles which set the same property differently (which one wins must not depend on a set's
+# iteration order), and documents that share rate-dependent time expressions under different ttp:frameRate / ttp:tickRate (a value
+# derived from one document must not be reused for another)
+TTML_STYLEORDER = """<?xml version="1.0" encoding="UTF-8"?>
+<tt xml:lang="en" xmlns="http://www.w3.org/ns/ttml" xmlns:tts="http://www.w3.org/ns/ttml#styling">
+<head><styling>
+<style xml:id="speakerA" tts:color="red" tts:fontWeight="bold" tts:textAlign="start"/>
+<style xml:id="speakerB" tts:color="blue" tts:fontStyle="italic" tts:textAlign="end"/>
+<style xml:id="speakerC" tts:color="lime" tts:textDecoration="underline" tts:textAlign="center"/>
+<style xml:id="narrator" style="speakerA speakerB"/>
+<style xml:id="chorus" style="speakerC speakerB speakerA narrator"/>
+<style xml:id="aside" style="chorus speakerC"/>
+</styling><layout><region xml:id="r1" style="narrator" tts:origin="10% 70%" tts:extent="80% 20%"/></layout></head>
+<body><div><p region="r1" begin="1s" end="3s" style="narrator">narrator <span style="chorus">chorus</span> <span style="aside speakerA">aside</span></p>
+<p region="r1" begin="4s" end="6s" style="speakerB speakerA speakerC">three <span style="speakerC narrator">two</span></p></div></body></tt>
+"""
+TTML_FRAMES = """<?xml version="1.0" encoding="UTF-8"?>
+<tt xml:lang="en" xmlns="http://www.w3.org/ns/ttml" xmlns:ttp="http://www.w3.org/ns/ttml#parameter" ttp:frameRate="{fps}" ttp:tickRate="{tick}">
+<body><div><p begin="48f" end="00:00:05:12">frames</p><p begin="144f" dur="36f">more frames</p><p begin="9000t" end="00:00:12:06">ticks</p></div></body></tt>
+"""
+
+
 def input_documents(quick=True):
   """-> [(name, type, bytes)]"""
   docs = [
@@ -246,6 +268,8 @@ def input_documents(quick=True):
     ("popon", "scc", SCC_POPON.encode("ascii")),
     ("open", "stl", STL_OPEN), ("teletext", "stl", STL_TELETEXT),
   ]
+  docs += [("styleorder", "ttml", TTML_STYLEORDER.encode("utf-8")), ("fps24", "ttml", TTML_FRAMES.format(fps=24, tick=1000).encode("utf-8")),
+           ("fps30", "ttml", TTML_FRAMES.format(fps=30, tick=90000).encode("utf-8"))]
   for typ, rel in RESOURCE_INPUTS:
     p = os.path.join(RES, rel)
     if os.path.isfile(p):
@@ -1038,6 +1062,11 @@ def determinism_cases(docs):
              "imsc_writer": {"time_format": "clock_time_with_frames", "fps": "25/1"}, "srt_writer": {"text_formatting": True},
              "vtt_writer": {"line_position": True, "text_align": True, "cue_id": True}}
       out.append(Case(rich[t], f"in.{t}", f"out.{ot}", filters=("lcd", "c19_a", "c19_b"), config=_cfg(**cfg), contract="deterministic-hashseed"))
+  # without any filter (the lcd filter would replace colours and alignment): style reference order, rate-dependent time expressions
+  for name in ("styleorder", "fps24", "fps30"):
+    for i in _docs_of(docs, "ttml", {name}):
+      for ot in S.OUTPUT_TYPES:
+        out.append(Case(i, "in.ttml", f"out.{ot}", config=_cfg(general={"progress_bar": False, "log_level": "WARN"}), contract="deterministic-hashseed"))
   return out
 
 
